@@ -1,18 +1,24 @@
-"""Discharging obligations: z3 first (Python API, one process per worker), cvc5 CLI for what z3 leaves open.
+"""Discharging obligations: z3 first, cvc5 for what z3 leaves open.
 
+Both solvers run as *separate processes* under a hard wall-clock and memory limit (z3's in-process timeout is not honoured
+reliably by its sequence solver; a runaway query must not take the check down).
 Verdicts per obligation:  'unsat' = discharged;  'sat' = refuted (model attached);  'unknown' = undecided.
 Nothing here turns `unknown`, a timeout or a crash into a violation.
 """
 import multiprocessing
 import os
+import re
 import subprocess
 import tempfile
 import time
-from fractions import Fraction
 
 import z3
 
 from . import specfuns as SF
+
+Z3_BIN = '/usr/local/bin/z3-new' if os.path.exists('/usr/local/bin/z3-new') else 'z3'
+CVC5_BIN = '/usr/bin/cvc5'
+MEM_MB = 3000
 
 
 def build_query(pc, claim):
@@ -35,77 +41,46 @@ def build_sat_query(pc):
     return s.to_smt2()
 
 
-def value_to_py(v):
-    try:
-        if z3.is_int_value(v):
-            return v.as_long()
-        if z3.is_true(v):
-            return True
-        if z3.is_false(v):
-            return False
-        if z3.is_rational_value(v):
-            fr = Fraction(v.numerator_as_long(), v.denominator_as_long())
-            return float(fr) if fr.denominator != 1 else int(fr)
-        if z3.is_algebraic_value(v):
-            return float(v.approx(10).as_fraction())
-        if z3.is_seq(v):
-            from .values import seq_concrete
-            b = seq_concrete(v)
-            if b is not None:
-                return {'bytes': b.hex()}
-        if z3.is_bv_value(v):
-            return v.as_long()
-    except Exception:      # noqa
-        pass
-    return {'sexpr': v.sexpr()[:2000]}
+def _tmpdir():
+    d = os.environ.get('PYVC_TMP')
+    if d:
+        os.makedirs(d, exist_ok=True)
+    return d
 
 
-def _solve_one(task):
-    name, text, timeout_ms, use_cvc5 = task
-    t0 = time.time()
-    backend = 'z3'
-    model = None
+def run_z3(text, timeout_ms, want_model=False):
+    with tempfile.NamedTemporaryFile('w', suffix='.smt2', delete=False, dir=_tmpdir()) as f:
+        f.write(text)
+        if want_model:
+            f.write('\n(get-model)\n')
+        path = f.name
+    secs = max(1, int(round(timeout_ms / 1000.0)))
     try:
-        s = z3.Solver()
-        s.set('timeout', timeout_ms)
-        s.from_string(text)
-        r = s.check()
-        res = str(r)
-        if r == z3.sat:
-            m = s.model()
-            model = {}
-            for d in m.decls():
-                if d.arity() == 0:
-                    model[d.name()] = value_to_py(m[d])
-                else:
-                    try:
-                        model[d.name()] = {'func': m[d].as_list().__repr__()[:4000]}
-                    except Exception:      # noqa
-                        model[d.name()] = {'func': '?'}
-        reason = s.reason_unknown() if r == z3.unknown else ''
+        p = subprocess.run([Z3_BIN, '-T:%d' % secs, '-memory:%d' % MEM_MB, path], capture_output=True, text=True, timeout=secs + 15)
+        out = p.stdout.strip()
+        first = out.split('\n')[0].strip() if out else ''
+        if first not in ('sat', 'unsat', 'unknown'):
+            return 'unknown', (first or p.stderr.strip())[:200], ''
+        return first, '', out[len(first):] if want_model else ''
+    except subprocess.TimeoutExpired:
+        return 'unknown', 'hard timeout', ''
     except Exception as e:      # noqa
-        res, reason = 'unknown', 'z3 error: %r' % (e,)
-    z3_s = time.time() - t0
-    cvc5_s = 0.0
-    if res == 'unknown' and use_cvc5:
-        t1 = time.time()
-        c = run_cvc5(text, timeout_ms)
-        cvc5_s = time.time() - t1
-        if c in ('unsat', 'sat'):
-            res = c
-            backend = 'cvc5'
-            reason = ''
-    return name, res, backend, z3_s, cvc5_s, model, reason
+        return 'unknown', 'z3 error: %r' % (e,), ''
+    finally:
+        try:
+            os.unlink(path)
+        except OSError:
+            pass
 
 
 def run_cvc5(text, timeout_ms):
-    with tempfile.NamedTemporaryFile('w', suffix='.smt2', delete=False, dir=os.environ.get('PYVC_TMP', None)) as f:
+    with tempfile.NamedTemporaryFile('w', suffix='.smt2', delete=False, dir=_tmpdir()) as f:
         f.write('(set-logic ALL)\n')
         f.write(text)
         path = f.name
     try:
-        p = subprocess.run(['/usr/bin/cvc5', '--strings-exp', '--tlimit=%d' % timeout_ms, path],
-                           capture_output=True, text=True, timeout=timeout_ms / 1000.0 + 10)
+        p = subprocess.run([CVC5_BIN, '--strings-exp', '--tlimit=%d' % timeout_ms, path],
+                           capture_output=True, text=True, timeout=timeout_ms / 1000.0 + 15)
         out = p.stdout.strip().split('\n')[0] if p.stdout.strip() else ''
         return out
     except Exception:      # noqa
@@ -117,19 +92,116 @@ def run_cvc5(text, timeout_ms):
             pass
 
 
-def solve_all(tasks, jobs=None, both=False):
+_DEF = re.compile(r'\(define-fun\s+(\S+)\s+\(\)\s+(\(Seq \(_ BitVec 8\)\)|Int|Bool|Real)\s+', re.S)
+
+
+def parse_model(text):
+    """Constants of sort Int / Bool / Real / Seq(BitVec 8) from z3's (get-model) output (best effort; the raw text is kept too)."""
+    out = {}
+    pos = 0
+    while True:
+        m = _DEF.search(text, pos)
+        if not m:
+            break
+        name, sort = m.group(1), m.group(2)
+        # balanced s-expression after the header
+        i = m.end()
+        depth = 0
+        j = i
+        while j < len(text):
+            ch = text[j]
+            if ch == '(':
+                depth += 1
+            elif ch == ')':
+                if depth == 0:
+                    break
+                depth -= 1
+            j += 1
+        body = text[i:j].strip()
+        pos = j
+        name = name.strip('|')
+        if sort == 'Int':
+            mm = re.fullmatch(r'\(-\s+(\d+)\)', body)
+            if mm:
+                out[name] = -int(mm.group(1))
+            elif re.fullmatch(r'\d+', body):
+                out[name] = int(body)
+        elif sort == 'Bool':
+            if body in ('true', 'false'):
+                out[name] = (body == 'true')
+        elif sort == 'Real':
+            try:
+                mm = re.fullmatch(r'\(/\s+([\d.]+)\s+([\d.]+)\)', body)
+                neg = re.fullmatch(r'\(-\s+(.*)\)', body)
+                if mm:
+                    out[name] = float(mm.group(1)) / float(mm.group(2))
+                elif neg:
+                    inner = neg.group(1).strip()
+                    mm = re.fullmatch(r'\(/\s+([\d.]+)\s+([\d.]+)\)', inner)
+                    out[name] = -(float(mm.group(1)) / float(mm.group(2))) if mm else -float(inner)
+                else:
+                    out[name] = float(body)
+            except Exception:      # noqa
+                pass
+        else:
+            bs = re.findall(r'#x([0-9a-fA-F]{2})', body)
+            if 'seq.empty' in body and not bs:
+                out[name] = {'bytes': ''}
+            elif bs and len(bs) < 5000000:
+                out[name] = {'bytes': ''.join(bs)}
+    return out
+
+
+def _cover_one(task):
+    """A satisfiability cover: cvc5 first (better at finding sequence models), then z3."""
+    name, text, timeout_ms, _ = task
+    t0 = time.time()
+    r = run_cvc5(text, timeout_ms)
+    backend = 'cvc5'
+    if r not in ('sat', 'unsat'):
+        r, _, _ = run_z3(text, timeout_ms)
+        backend = 'z3'
+    return name, r if r in ('sat', 'unsat') else 'unknown', backend, 0.0, time.time() - t0, None, ''
+
+
+def _solve_one(task):
+    name, text, timeout_ms, use_cvc5 = task
+    t0 = time.time()
+    res, reason, _ = run_z3(text, timeout_ms)
+    backend = 'z3'
+    z3_s = time.time() - t0
+    cvc5_s = 0.0
+    if res == 'unknown' and use_cvc5:
+        t1 = time.time()
+        c = run_cvc5(text, timeout_ms)
+        cvc5_s = time.time() - t1
+        if c in ('unsat', 'sat'):
+            res, backend, reason = c, 'cvc5', ''
+    model = None
+    raw = ''
+    if res == 'sat':
+        # ask z3 for the model of the refutation (short budget; the verdict does not depend on it)
+        r2, _, raw = run_z3(text, min(timeout_ms, 20000), want_model=True)
+        if r2 == 'sat':
+            model = parse_model(raw)
+            model['__raw__'] = raw[:20000]
+    return name, res, backend, z3_s, cvc5_s, model, reason
+
+
+def solve_all(tasks, jobs=None, both=False, sat_first=False):
     """tasks: list of (name, smt2 text, timeout_ms).  Returns dict name -> result record."""
     jobs = jobs or min(16, os.cpu_count() or 4)
     items = [(n, t, to, True) for (n, t, to) in tasks]
     out = {}
     if not items:
         return out
+    fn = _cover_one if sat_first else _solve_one
     if jobs == 1 or len(items) == 1:
-        results = [_solve_one(it) for it in items]
+        results = [fn(it) for it in items]
     else:
         ctx = multiprocessing.get_context('fork')
         with ctx.Pool(min(jobs, len(items))) as pool:
-            results = pool.map(_solve_one, items, chunksize=1)
+            results = pool.map(fn, items, chunksize=1)
     for name, res, backend, z3_s, cvc5_s, model, reason in results:
         out[name] = {'result': res, 'backend': backend, 'z3_s': round(z3_s, 4), 'cvc5_s': round(cvc5_s, 4), 'model': model, 'reason': reason}
     if both:
